@@ -185,8 +185,11 @@ def format_time_units_for_ems(units: str, calendar: str | None = DEFAULT_CALENDA
     # This will put them in the correct timezone
     offset_datetime = reference_datetime.replace(tzinfo=pytz.UTC).astimezone(tzinfo)
 
-    offset_hours, offset_minutes = divmod(int(time_bits[-1]), 60)
-    offset_string = f'{offset_hours:+d}:{offset_minutes:02d}'
+    # The sign applies to both the hours and the minutes,
+    # and the hours must be two digits wide to be understood by cftime.
+    offset_sign = '-' if time_bits[-1] < 0 else '+'
+    offset_hours, offset_minutes = divmod(abs(int(time_bits[-1])), 60)
+    offset_string = f'{offset_sign}{offset_hours:02d}:{offset_minutes:02d}'
 
     new_units = f'{period} since {offset_datetime:%Y-%m-%d %H:%M:%S} {offset_string}'
 
